@@ -5,7 +5,7 @@ Import ListNotations.
 Open Scope Z_scope.
 
 (* input: (kind (0 = read_as_int, 1 = read_as_bytes), buffer, p, n) *)
-Definition run_c03 (i : Z * (Z * Z) * Z * Z) : sx :=
+Definition run_c03 (i : Z * list (Z * Z) * Z * Z) : sx :=
   let '(kind, b, p, n) := i in
   let B := bytes_of b in
   let c := {| cdata := B; cpos := p |} in
@@ -13,7 +13,7 @@ Definition run_c03 (i : Z * (Z * Z) * Z * Z) : sx :=
   else sx_res (fun vc : list Z * cursor => L [sx_b (fst vc); I (cpos (snd vc)); sx_b (cdata (snd vc))]) (read_as_bytes c n).
 
 (* the property's statement, computed from the bit string of the buffer *)
-Definition spec_c03 (i : Z * (Z * Z) * Z * Z) : sx :=
+Definition spec_c03 (i : Z * list (Z * Z) * Z * Z) : sx :=
   let '(kind, b, p, n) := i in
   let B := bytes_of b in
   if kind =? 0 then L [I 0; L [I (spec_int B p n); I (p + n); sx_b B]]
